@@ -391,6 +391,13 @@ func vfC01RunWalk(t *testing.T, res *vfh.Result, lay vfC01Layout, pool vfC01KeyP
 		}
 		res.Count(1, steps)
 		count = ch.count
+		if j.w.Walk%997 == 0 && form == 0 {
+			var ops []string
+			for _, o := range c.prefix {
+				ops = append(ops, fmt.Sprintf("%s %s%s k=%d", o.Name(), o.S("kind"), o.S("v"), o.I("k")))
+			}
+			res.Sample(map[string]any{"cfg": j.cfg.String(), "keys": ids.String(), "pass": j.pass, "actions": ops, "final": x.obs()})
+		}
 	})
 	return count, err
 }
@@ -625,7 +632,7 @@ func TestVerifC01NoiseReplay(t *testing.T) {
 			}
 		} else if thorough || len(edits) <= 1 || (w.Walk+int(seed))%4 == 0 {
 			add("types", pick(), -1, false)
-			if thorough {
+			if thorough && len(edits) <= 1 {
 				add("types", pick(), -1, false)
 			}
 		}
